@@ -1,6 +1,8 @@
 package main
 
 import (
+	"strings"
+
 	"hmsverif/internal/hs"
 )
 
@@ -60,6 +62,7 @@ func c01Oracle(pc progCase, r *Result) {
 	r.Distinct(o.Key())
 	r.Sample(pc.P.Text)
 	if class, detail := compareRef(ref, o, true); class != "" {
+		class = refineArgOrder(class, pc, ref, o, true)
 		r.Fail(class, append(append([]string{}, pc.Tags...), ref.Feat...), pc.P.Text, detail)
 	}
 }
@@ -72,4 +75,27 @@ func init() {
 		}
 		return c
 	})
+}
+
+// refineArgOrder: when a program evaluates several effectful call arguments and the observation
+// differs from the reference, check whether it equals the reference with arguments evaluated
+// right to left (the VM's documented deviation); if so the failure gets its own class.
+func refineArgOrder(class string, pc progCase, ref hs.RefObs, o Obs, residue bool) string {
+	has := false
+	for _, f := range ref.Feat {
+		if f == "multi-arg-effects" {
+			has = true
+		}
+	}
+	if !has || strings.HasPrefix(class, "HOST-PANIC") || strings.HasPrefix(class, "HANG") {
+		return class
+	}
+	alt := hs.EvalRTL(pc.Prog, &pc.P, refBudget)
+	if alt.Unspec != "" {
+		return class
+	}
+	if c2, _ := compareRef(alt, o, residue); c2 == "" {
+		return "ARG-ORDER:call arguments evaluated right to left"
+	}
+	return class
 }
